@@ -744,6 +744,7 @@ func (c *Client) Do(ctx context.Context, q Query) (err error) {
 	})
 	g.Go(func() error {
 		// Receiving query result, data and telemetry.
+		defer verifAt(ctx, c, "R.done")
 		defer close(done)
 		if colInfo != nil {
 			defer close(colInfo)
